@@ -142,6 +142,52 @@ def judge(case, obs):
     return None
 
 
+def judge_slow(case, obs):
+    t = {op.get('tag'): st for op, st in zip(case['script'], obs['steps']) if op.get('tag')}
+    he, r, e = t['has_error'].get('ret'), t['result'].get('ret'), t['error'].get('ret')
+    exp = case.get('expect') or ('error' if case['target'] == 'raise_exc' else 'result')
+    bad = None
+    if t['dead'].get('ret') is not True:
+        bad = 'death-not-observed'
+    elif exp == 'result' and not (he is False and r is not None and e is None):
+        bad = 'wrong-outcome:has_error=%r,result=%s,error=%s' % (he, 'None' if r is None else 'value', 'None' if e is None else 'set')
+    elif exp == 'error' and not (he is True and r is None and e is not None):
+        bad = 'wrong-outcome:has_error=%r,result=%s,error=%s' % (he, 'None' if r is None else 'value', 'None' if e is None else 'set')
+    elif t['has_error2'].get('ret') is not he:
+        bad = 'outcome-not-stable'
+    return t, bad
+
+
+def slow_consumer_part(ctx):
+    """Natural endings of remote workers whose parent drains the data connection slowly: the child process is long gone (and
+    its socket closed) while most of the final messages are still in flight; the outcome must be the one of the ending."""
+    cases = []
+    for kind in ('R',):
+        for target, args, exp in (('ret_value', ['b1m'], 'result'), ('ret_value', ['b208k1'], 'result'), ('raise_exc', ['ve2'], 'error')):
+            for obsv in ('wait', 'poll'):
+                sc = [{'op': 'create', 'var': 'w', 'kind': kind, 'target': target, 'args': args, 'slow_reader': {'chunk': 16384, 'sleep': 0.01}},
+                      ({'op': 'call', 'var': 'w', 'method': 'wait', 'args': [30], 'timeout': 40, 'tag': 'dead', 'stop_on_hang': False} if obsv == 'wait'
+                       else {'op': 'poll_dead', 'var': 'w', 'timeout': 30, 'tag': 'dead'}),
+                      {'op': 'get', 'var': 'w', 'attr': 'has_error', 'tag': 'has_error'},
+                      {'op': 'get', 'var': 'w', 'attr': 'result', 'tag': 'result'},
+                      {'op': 'get', 'var': 'w', 'attr': 'error', 'tag': 'error'},
+                      {'op': 'get', 'var': 'w', 'attr': 'has_error', 'tag': 'has_error2'}]
+                cases.append({'script': sc, 'kind': kind, 'target': target, 'args': args, 'observe': obsv, 'expect': exp})
+    res = land.run_cases(cases, case_timeout=120)
+    for case, obs in zip(cases, res):
+        ctx.count()
+        ctx.distinct(('slow-consumer', case['kind'], case['target'], tuple(case['args']), case['observe']))
+        if obs.get('driver_hang') or obs.get('driver_error') or len(obs.get('steps', [])) < 6:
+            ctx.extra.setdefault('harness_anomalies', []).append({'case': 'slow-consumer', 'why': str(obs.get('driver_hang') or obs.get('driver_error'))[:200]})
+            continue
+        t, bad = judge_slow(case, obs)
+        ctx.outcome('slow-consumer:%s:%s' % (case['kind'], bad or 'ok'))
+        if bad:
+            ctx.violation('SEQ/%s/%s/natural-slow-consumer/%s/%s' % (case['kind'], case['target'], case['observe'], bad),
+                          {k: case[k] for k in ('kind', 'target', 'args', 'observe', 'script')}, {k: str(v)[:120] for k, v in t.items()},
+                          'the outcome of the ending: (False, value, None) / (True, None, error)', engine='SEQ')
+
+
 def run(ctx):
     full = not ctx.quick
     ctx.rule = ('(worker class, ending, landing point k, observation way); landing alphabet as in C03 (every LINE event of the child working '
@@ -190,6 +236,7 @@ def run(ctx):
         ctx.violation(sig, {k: case.get(k) for k in ('kind', 'target', 'inputs', 'close', 'events', 'observe', '_site')},
                       {'death': obs.get('death'), 'rounds': obs.get('rounds'), 'terminate_ret': obs.get('terminate_ret')},
                       'one definite, stable outcome of the expected shape', engine='LAND')
+    slow_consumer_part(ctx)
     ctx.sample({'natural_endings': len(nat), 'example': nat[3]})
     for b, s in list(zip(bases, scs))[:3]:
         ctx.sample({'scenario': {k: s[k] for k in ('kind', 'target')}, 'landing_points_on_base_path': b.get('events_total')})
@@ -201,6 +248,14 @@ def run(ctx):
 
 def replay(ctx, rec):
     c = rec['case']
+    if 'script' in c:
+        obs = land.run_cases([{'script': c['script']}], case_timeout=120)[0]
+        ctx.count()
+        t, bad = judge_slow(c, obs)
+        print('replayed:', {k: str(v)[:100] for k, v in t.items()}, 'verdict:', bad)
+        if bad:
+            ctx.violation(rec['signature'], c, {k: str(v)[:120] for k, v in t.items()}, rec.get('expected'), engine='SEQ')
+        return
     case = {k: v for k, v in c.items() if v is not None and k != '_site'}
     obs = land.run_cases([case], case_timeout=90)[0]
     ctx.count()
